@@ -52,6 +52,13 @@ def gate(ob: str, **args: Any) -> bool:
     return True
 
 
+def gate_native(ob: str, vec: Dict[str, Any]) -> bool:
+    try:
+        return bool(gate(ob, **vec))
+    except Exception:
+        return True
+
+
 def verdict(ok: Any, nontrivial: bool = True) -> bool:
     """Every obligation returns through here: counts oracle evaluations and
     implements the reachability twin."""
